@@ -117,13 +117,13 @@ inline void __v_check_exp_args(const char* label) {
 }
 
 extern "C" void h_main();
-#ifndef VERIF_NO_MAIN
 extern "C" double __wrap_exp(double x) {
     if (x > __v_exp_max()) __v_exp_max() = x;
     if (x <= 1e-12 && x >= -1e-12) __v_exp_zero()++;
     __v_exp_n()++;
     return __real_exp(x);
 }
+#ifndef VERIF_NO_MAIN
 int main(int argc, char** argv) {
     boost::mpi::environment env(argc, argv);
     h_main();
